@@ -8,6 +8,7 @@ import (
 	"go/parser"
 	"go/token"
 	"go/types"
+	"golang.org/x/tools/go/ssa"
 	"strings"
 )
 
@@ -162,10 +163,106 @@ func updateListTemplate(p *Prog, r *Report, rule string, nt *types.Named) {
 	}
 	r.Check(rule, key+"|S2", s2, pos, fmt.Sprintf("field read from the new list (%s), passed as existing data (%s) and assigned (%s) are one slice field of the receiver", vname(readField), vname(existField), vnames(assignedFields)))
 	r.Check(rule, key+"|S3", s3 && engineCallCount == 1, pos, "model.UpdateList is called once with (remoteWrite, r.F, newData, filterPartial, filterDelete) taken from the method's own parameters in that order")
-	// S4
-	r.Check(rule, key+"|S4", assignCount == 1 && assignCondsOK, pos, "the merged data is assigned to the receiver's field exactly under success && persist")
-	// S5
-	r.Check(rule, key+"|S5", returnCount == 1 && returnsOK, pos, "the method returns the engine's two results (merged data, success)")
+	// S4 / S5 on the resolved program when available (guard clauses, early returns and named conditions are then all
+	// the same shape); the syntactic verdicts are the fall-back
+	s4, s5 := assignCount == 1 && assignCondsOK, returnCount == 1 && returnsOK
+	if p.SSA != nil {
+		if fn := p.Method("model", nt.Obj().Name(), "UpdateList"); fn != nil && fn.Blocks != nil {
+			if a, b, ok := updateListS4S5(fn); ok {
+				s4, s5 = a, b
+			}
+		}
+	}
+	r.Check(rule, key+"|S4", s4, pos, "the merged data is assigned to the receiver's field exactly under success && persist")
+	r.Check(rule, key+"|S5", s5, pos, "the method returns the engine's two results (merged data, success)")
+}
+
+// updateListS4S5 decides on SSA: every store to a field of the receiver stores the
+// engine's first result and is guarded by exactly {engine's second result true,
+// persist parameter true}; every return returns the engine's two results.
+func updateListS4S5(fn *ssa.Function) (s4, s5, ok bool) {
+	if len(fn.Params) != 6 {
+		return false, false, false
+	}
+	persist := fn.Params[2]
+	var engine *ssa.Call
+	for _, b := range fn.Blocks {
+		for _, ins := range b.Instrs {
+			if c, isC := ins.(*ssa.Call); isC {
+				if callee := c.Call.StaticCallee(); callee != nil && originName(callee) == "UpdateList" && callee.Signature.Recv() == nil {
+					engine = c
+				}
+			}
+		}
+	}
+	if engine == nil {
+		return false, false, false
+	}
+	var res0, res1 ssa.Value
+	for _, ref := range *engine.Referrers() {
+		if ex, isE := ref.(*ssa.Extract); isE {
+			if ex.Index == 0 {
+				res0 = ex
+			} else {
+				res1 = ex
+			}
+		}
+	}
+	nStores := 0
+	s4 = true
+	for _, b := range fn.Blocks {
+		for _, ins := range b.Instrs {
+			st, isS := ins.(*ssa.Store)
+			if !isS {
+				continue
+			}
+			fa, isF := st.Addr.(*ssa.FieldAddr)
+			if !isF || fa.X != ssa.Value(fn.Params[0]) {
+				continue
+			}
+			nStores++
+			if st.Val != res0 {
+				s4 = false
+			}
+			hasOK, hasPersist := false, false
+			for _, g := range Guards(b) {
+				switch {
+				case g.Cond == res1 && g.Val:
+					hasOK = true
+				case g.Cond == ssa.Value(persist) && g.Val:
+					hasPersist = true
+				case g.Cond == res1 || g.Cond == ssa.Value(persist):
+					s4 = false // reached on a false edge
+				default:
+					if _, isPhi := g.Cond.(*ssa.Phi); !isPhi {
+						s4 = false // an additional condition
+					}
+				}
+			}
+			if !hasOK || !hasPersist {
+				s4 = false
+			}
+		}
+	}
+	if nStores != 1 {
+		s4 = false
+	}
+	s5 = true
+	nRet := 0
+	for _, b := range fn.Blocks {
+		ret, isR := b.Instrs[len(b.Instrs)-1].(*ssa.Return)
+		if !isR {
+			continue
+		}
+		nRet++
+		if len(ret.Results) != 2 || unwrapIface(ret.Results[0]) != res0 || ret.Results[1] != res1 {
+			s5 = false
+		}
+	}
+	if nRet == 0 {
+		s5 = false
+	}
+	return s4, s5, true
 }
 
 func vname(v *types.Var) string {
